@@ -553,6 +553,8 @@ impl WriteBackend for LocalBackend {
                 return Err(err);
             }
         }
+        #[cfg(feature = "verif-hooks")]
+        verif::pre_publish(&filename_tmp, &filename);
         // rename temporary file to real file
         fs::rename(&filename_tmp, &filename).map_err(|err| {
             RusticError::with_source(
@@ -601,5 +603,31 @@ impl WriteBackend for LocalBackend {
             warn!("post-delete: {}", err.display_log());
         }
         Ok(())
+    }
+}
+
+/// Verification hooks (only compiled with the `verif-hooks` feature).
+#[cfg(feature = "verif-hooks")]
+pub mod verif {
+    use std::{
+        path::Path,
+        sync::{Arc, RwLock},
+    };
+
+    type PrePublishHook = Arc<dyn Fn(&Path, &Path) + Send + Sync>;
+
+    static PRE_PUBLISH: RwLock<Option<PrePublishHook>> = RwLock::new(None);
+
+    /// Install (or remove) the function called in `LocalBackend::write_bytes` after the temporary
+    /// file has been written and synced and before it is renamed to its final name.
+    pub fn set_pre_publish_hook(hook: Option<PrePublishHook>) {
+        *PRE_PUBLISH.write().unwrap() = hook;
+    }
+
+    pub(super) fn pre_publish(tmp: &Path, dest: &Path) {
+        let hook = PRE_PUBLISH.read().unwrap().clone();
+        if let Some(hook) = hook {
+            hook(tmp, dest);
+        }
     }
 }
